@@ -47,7 +47,7 @@ func checkC03(c *Ctx) {
 			continue
 		}
 		g := op.Fn
-		if g == rf {
+		if g == rf || m.staticReach(rf, false)[g] {
 			c.viol("R1", "refresh attempt in its own goroutine", op.Call, "the Update is issued inline in the loop: a hanging store call blocks the loop for ever and the leader never steps down")
 			continue
 		}
@@ -66,20 +66,22 @@ func checkC03(c *Ctx) {
 		if send == nil {
 			continue
 		}
-		chSym := m.Sym.Of(send.Chan)
+		chSym := m.Sym.Of(m.traceValue(send.Chan))
 		capOK := chSym.Op == "makechan" && len(chSym.Args) == 1 && func() bool { n, ok := chSym.Args[0].ConstInt(); return ok && n >= 1 }()
 		c.check(capOK, "R1", "result channel is buffered", send, "channel %s (a goroutine abandoned after the time-out must not block for ever on its send)", chSym)
 		// the waiting select
 		var sel *ssa.Select
-		eachInstr(rf, func(in ssa.Instruction) {
-			if s, ok := in.(*ssa.Select); ok && s.Blocking {
-				for _, st := range s.States {
-					if m.Sym.Of(st.Chan).String() == chSym.String() && st.Dir == 2 {
-						sel = s
+		for _, uf := range m.unitFns(rf) {
+			eachInstr(uf, func(in ssa.Instruction) {
+				if s, ok := in.(*ssa.Select); ok && s.Blocking {
+					for _, st := range s.States {
+						if m.Sym.Of(m.traceValue(st.Chan)).String() == chSym.String() && st.Dir == 2 {
+							sel = s
+						}
 					}
 				}
-			}
-		})
+			})
+		}
 		if sel == nil {
 			c.viol("R1", "loop waits for the attempt in a select", op.Call, "no blocking select receiving from the result channel found in %s", shortFn(rf))
 			continue
@@ -214,7 +216,19 @@ func checkC03(c *Ctx) {
 				}
 				gs := m.Guards(lf.pred)
 				succ := hasLit(gs, true, func(s *Sym) bool {
-					return s.Op == "bin" && s.Name == "==" && symMentions(s, "nil") && (symMentions(s, "NewTimeoutError(") || symMentions(s, ".err"))
+					if s.Op != "bin" || s.Name != "==" || len(s.Args) != 2 {
+						return false
+					}
+					for i := 0; i < 2; i++ {
+						if s.Args[i].String() == "nil" && s.Args[1-i].V != nil {
+							for o := range m.Origins(s.Args[1-i].V) {
+								if strings.HasPrefix(o, "kverr:Update@") {
+									return true
+								}
+							}
+						}
+					}
+					return false
 				})
 				if !succ {
 					okLeaves = false
@@ -449,20 +463,22 @@ func attemptTimeoutRule(c *Ctx, rule string) {
 	}
 	H := m.cfgPath("HeartbeatInterval")
 	n := 0
-	eachInstr(rf, func(in ssa.Instruction) {
-		sel, ok := in.(*ssa.Select)
-		if !ok || !sel.Blocking {
-			return
-		}
-		for _, st := range sel.States {
-			if call, ok := isCallTo(st.Chan, "time.After"); ok {
-				n++
-				got := m.Gated(call.Call.Args[0])
-				okForm, want := timeoutFormOK(got, H)
-				c.check(okForm, rule, "per-attempt time-out is max(H/2, 1s)", sel, "time-out expression %s; required %s (or builtin max of the same operands)", got, want)
+	for _, uf := range m.unitFns(rf) {
+		eachInstr(uf, func(in ssa.Instruction) {
+			sel, ok := in.(*ssa.Select)
+			if !ok || !sel.Blocking {
+				return
 			}
-		}
-	})
+			for _, st := range sel.States {
+				if call, ok := isCallTo(st.Chan, "time.After"); ok {
+					n++
+					got := m.Gated(call.Call.Args[0])
+					okForm, want := timeoutFormOK(got, H)
+					c.check(okForm, rule, "per-attempt time-out is max(H/2, 1s)", sel, "time-out expression %s; required %s (or builtin max of the same operands)", got, want)
+				}
+			}
+		})
+	}
 	if n == 0 {
 		c.viol(rule, "per-attempt time-out exists", firstInstr(rf), "no time.After case in the refresh loop's selects")
 	}
